@@ -93,20 +93,26 @@ Proof.
   rewrite in_map_iff. split.
   - rewrite in_flat_map. intros [hm [Hhm Hin]]. rewrite in_flat_map in Hin. destruct Hin as [ow [How Hr]].
     destruct (snd ow) as [[|rid']|] eqn:Ew; try contradiction. destruct Hr as [<-|[]].
-    destruct (P.al_get P.outpoint_ltb (fst ow) idx) as [i|] eqn:Ei.
+    destruct (P.al_get P.outpoint_ltb (fst ow) idx) as [[h' i]|] eqn:Ei; [destruct (eqb_of BytesOrd.bytes_ltb h' (fst hm)) eqn:Eh|].
     + left. exists (P.mkR P.TSpend i rid'). split; [reflexivity|].
       rewrite in_flat_map. exists hm. split; [exact Hhm|]. rewrite in_flat_map. exists ow. split; [exact How|].
-      unfold P.ib_entry_redeemer. rewrite Ew, Ei. left. reflexivity.
+      unfold P.ib_entry_redeemer. rewrite Ew, Ei, Eh. left. reflexivity.
+    + right. rewrite in_flat_map. exists hm. split; [exact Hhm|]. rewrite in_flat_map. exists ow. split; [exact How|].
+      unfold ib_stale_entry. rewrite Ew, Ei, Eh. left. reflexivity.
     + right. rewrite in_flat_map. exists hm. split; [exact Hhm|]. rewrite in_flat_map. exists ow. split; [exact How|].
       unfold ib_stale_entry. rewrite Ew, Ei. left. reflexivity.
   - intros [[r [Hr Hin]]|Hin].
     + rewrite in_flat_map in Hin. destruct Hin as [hm [Hhm Hin]]. rewrite in_flat_map in Hin. destruct Hin as [ow [How Hx]].
       unfold P.ib_entry_redeemer in Hx. destruct (snd ow) as [[|rid']|] eqn:Ew; try contradiction.
-      destruct (P.al_get P.outpoint_ltb (fst ow) idx); [|contradiction]. destruct Hx as [<-|[]]. cbn [P.r_data] in Hr. subst rid.
+      destruct (P.al_get P.outpoint_ltb (fst ow) idx) as [[h' i]|]; [|contradiction].
+      destruct (eqb_of BytesOrd.bytes_ltb h' (fst hm)); [|contradiction]. destruct Hx as [<-|[]]. cbn [P.r_data] in Hr. subst rid.
       rewrite in_flat_map. exists hm. split; [exact Hhm|]. rewrite in_flat_map. exists ow. split; [exact How|]. rewrite Ew. left. reflexivity.
     + rewrite in_flat_map in Hin. destruct Hin as [hm [Hhm Hin]]. rewrite in_flat_map in Hin. destruct Hin as [ow [How Hx]].
       unfold ib_stale_entry in Hx. destruct (snd ow) as [[|rid']|] eqn:Ew; try contradiction.
-      destruct (P.al_get P.outpoint_ltb (fst ow) idx); [contradiction|]. destruct Hx as [<-|[]].
+      assert (Hrid : rid' = rid).
+      { destruct (P.al_get P.outpoint_ltb (fst ow) idx) as [[h' i]|]; [destruct (eqb_of BytesOrd.bytes_ltb h' (fst hm)); [contradiction|]|];
+          destruct Hx as [<-|[]]; reflexivity. }
+      subst rid'.
       rewrite in_flat_map. exists hm. split; [exact Hhm|]. rewrite in_flat_map. exists ow. split; [exact How|]. rewrite Ew. left. reflexivity.
 Qed.
 
